@@ -56,10 +56,10 @@ Definition do_open (s : st) (p : path) (m : mode) (d : bytes) : st * outcome :=
         let s1 := {| user := user s; tmpf := tset (tmpf s) t "";
                      pending := (pending s ++ [{| e_tmp := t; e_path := p; e_mode := m |}])%list;
                      next := N.succ t |} in
-        if m_plus m && m_r m then              (* l.115-117: r+ keeps the old content *)
+        if m_plus m && m_r m then              (* l.115-123: r+ keeps the old content; a missing file registers nothing *)
           match get (user s) p with
           | Some c => (with_tmp s1 t (apply_mode m c d), OK)
-          | None => (s1, ErrNotFound)
+          | None => (s, ErrNotFound)
           end
         else (with_tmp s1 t (apply_mode m "" d), OK)
       else if m_r m then                       (* l.105-106: plain read *)
